@@ -498,3 +498,68 @@ def r09_cfp_calendar_free_productions(ctx: Ctx) -> RuleResult:
     rr = RuleResult("R09.cfp", "no calendar-bearing result is assembled from calendar-free pieces (day number, instant, local instant) while a calendar-bearing value is in hand", min_instances=100)
     check_calendar_free_productions(ctx, rr)
     return rr
+
+
+@rule("C09")
+def r09_12_months_between_is_checked_by_addition(ctx: Ctx) -> RuleResult:
+    """`_months_between(start, end)` must return the largest n with start + n months not past end.  Because `_add_months` clamps the
+    day to the target month's length, the estimate cannot be corrected from the day numbers of start and end alone: every
+    implementation has to perform the addition it is the inverse of and compare its result with `end`.  Checked structurally: a
+    call `self._add_months(start, <estimate>)` exists, and every returned value is control-dependent on a comparison between that
+    call's result and `end`.  Calculators that override `compare` (month numbering differs from chronological order) must use it
+    for every ordering of two year-month-day values: the naive `<`, `<=` on packed values are wrong there."""
+    from ..kit import result_influences
+
+    rr = RuleResult("R09.12", "months_between validates its estimate by performing the month addition and comparing with end; calculators with their own ordering never use the naive comparison operators", min_instances=4)
+    M = ctx.M
+    base = M.cls("_YearMonthDayCalculator")
+    for c in sorted(M.all_classes(), key=lambda x: x.qual):
+        if not M.is_subclass(c, "_YearMonthDayCalculator") or c is base:
+            continue
+        f = c.methods.get("_months_between")
+        if f is not None and not any(isinstance(n, ast.Raise) and "NotImplementedError" in unparse(n) for n in own_nodes(f.node)):
+            rr.inst()
+            ps = [p.arg for p in f.value_params]
+            adds = [n for n in own_nodes(f.node) if isinstance(n, ast.Call) and isinstance(n.func, ast.Attribute) and n.func.attr == "_add_months" and n.args and isinstance(n.args[0], ast.Name) and n.args[0].id == ps[0]]
+            if not adds:
+                rr.fail(f.qual, f"never performs `_add_months({ps[0]}, ...)`: the estimate is corrected without the clamped addition it has to be the inverse of", ctx.loc(f))
+            else:
+                # the addition's result (directly or through a local) must be compared with `end` in a test
+                holders = set()
+                for a in adds:
+                    p = getattr(a, "_parent", None)
+                    if isinstance(p, (ast.Assign, ast.AnnAssign)):
+                        t = p.targets[0] if isinstance(p, ast.Assign) else p.target
+                        if isinstance(t, ast.Name):
+                            holders.add(t.id)
+                tests = [n.test for n in own_nodes(f.node) if isinstance(n, (ast.If, ast.While, ast.IfExp))]
+                ok = False
+                for t in tests:
+                    names = {x.id for x in ast.walk(t) if isinstance(x, ast.Name)}
+                    has_add = bool(names & holders) or any(x in adds for x in ast.walk(t))
+                    if has_add and ps[1] in names:
+                        ok = True
+                if ok:
+                    rr.ok({"fn": f.qual, "additions": len(adds)})
+                else:
+                    rr.fail(f.qual, f"performs the addition but never compares its result with `{ps[1]}` in a test that decides the answer", ctx.loc(f, adds[0]))
+        if "compare" in c.methods:
+            # own ordering: naive operators on _YearMonthDay values are forbidden in this class
+            for g in c.all_defs:
+                if isinstance(g.node, ast.Lambda):
+                    continue
+                ymd = {p.arg for p in g.value_params if p.annotation is not None and unparse(p.annotation).strip("'\"") == "_YearMonthDay"}
+                for n in own_nodes(g.node):
+                    if isinstance(n, (ast.Assign, ast.AnnAssign)) and getattr(n, "value", None) is not None and isinstance(n.value, ast.Call) and unparse(n.value.func).split(".")[-1] in ("_add_months", "_set_year", "_get_year_month_day"):
+                        t = n.targets[0] if isinstance(n, ast.Assign) else n.target
+                        if isinstance(t, ast.Name):
+                            ymd.add(t.id)
+                for n in own_nodes(g.node):
+                    if isinstance(n, ast.Compare) and any(isinstance(o, (ast.Lt, ast.LtE, ast.Gt, ast.GtE)) for o in n.ops):
+                        operands = [n.left, *n.comparators]
+                        if sum(1 for o in operands if isinstance(o, ast.Name) and o.id in ymd) >= 2:
+                            rr.inst()
+                            rr.fail(g.qual, f"`{unparse(n)}` orders two year-month-day values with the naive operator although {c.name} defines its own `compare` (month numbers are not in chronological order here)", ctx.loc(g, n))
+            rr.inst()
+            rr.ok({"class": c.qual, "ordering": "own compare; no naive operator on year-month-day values"})
+    return rr
